@@ -74,7 +74,7 @@ func init() {
 		Technique:   "static analysis: must-facts dataflow over go/cfg (predicate duals, guard-before-sink), value-binding patterns, import identity",
 		Rules:       []string{"E1"},
 		Run: func(c *Ctx) {
-			RunE1(c, "C16", obs)
+			RunE1(c, "C16", append(append([]Ob{}, obs...), sharedObs["C16"]...))
 			RunForbiddenImport(c, "E7.device.no-math-rand", []string{"op"}, []string{"math/rand", "math/rand/v2"})
 			RunConstAtLeast(c, "E7.device.code-bytes", "op", "RecommendedDeviceCodeBytes", 16)
 			RunCallers(c, "E1.device-state-table", "op.CheckDeviceAuthorizationState", []string{"op.deviceAccessToken", "op.(*LegacyServer).DeviceToken"}, "device token sinks")
